@@ -160,7 +160,7 @@ def run(ctx, b, broken):
     MULT = {"linemarkers": 8, "line-directives": 10, "pragmas": 10, "big-switch": 3, "switch-label-runs": 4, "big-struct": 4, "big-enum": 6, "big-initlist": 4,
             "big-block": 4, "string-concat": 15, "wstring-concat": 15, "many-functions": 2, "array-dims": 2, "typedef-uses": 4, "call-args": 5, "else-if-chain": 1,
             "struct-body-many-declarators": 1, "enum-body-many-declarators": 1, "typedef-struct-many-names": 1, "prototype-many-parameters-many-declarators": 1,
-            "member-chain": 1, "arrow-chain": 1, "subscript-chain": 1, "call-chain": 1, "postincrement-chain": 1, "pointer-stars": 1, "nested-structs": 1, "nested-blocks": 1,
+            "member-chain": 1, "arrow-chain": 1, "subscript-chain": 1, "call-chain": 1, "postincrement-chain": 1, "pointer-stars": 8, "nested-structs": 1, "nested-blocks": 1,
             "nested-function-pointer-parameters": 1, "linemarker-run-between-two-tokens": 4, "pragma-run": 4, "knr-parameters": 2, "typedef-names-in-scope": 2, "case-labels-one-statement": 1,
             "names-then-blocks": 20, "names-then-functions": 20, "names-then-initializer-braces": 20}
     names = list(timed(4))
